@@ -2,6 +2,7 @@
 import itertools
 import json
 
+import numpy as np
 import z3
 
 from .. import glue, pyexec as X
@@ -95,7 +96,7 @@ def configs():
     import numpy as np
 
     base = {"CountMinLinear": dict(width=7, depth=3), "CountMinLog16": dict(width=7, depth=3, max_count=2**32 - 1, num_reserved=1023), "CountMinLog8": dict(width=7, depth=3, max_count=2**32 - 1, num_reserved=15), "HyperLogLog": dict(p=8, seed=5), "HeavyHitters": dict(width=5, depth=2, max_key_len=4)}
-    var = {"width": [8], "depth": [4], "max_count": [2**32 - 2, 4 * 10**9, 2**40], "num_reserved": [14, 1022, 3], "p": [9], "seed": [6, 2**63 + 5], "max_key_len": [5]}
+    var = {"width": [8], "depth": [4], "max_count": [2**32 - 2, 4 * 10**9, 2**40], "num_reserved": [14, 1022, 3], "p": [9], "seed": [6, 2**63 + 5, 1700000000, 1700000001, 2**63 + 6], "max_key_len": [5]}
     out = {}
     for cls, b in base.items():
         lst = [dict(b)]
@@ -136,7 +137,7 @@ def same(a, b):
 MERGE_PARAMS = {"CountMinLinear": ["width", "depth"], "CountMinLog16": ["width", "depth", "max_count", "num_reserved"], "CountMinLog8": ["width", "depth", "max_count", "num_reserved"], "HyperLogLog": ["p", "seed"], "HeavyHitters": ["width", "depth", "max_key_len"]}
 
 
-def try_pair(chk, ca, a, cb, b, how, records_only=False):
+def try_pair(chk, ca, a, cb, b, how, records_only=False, high=False):
     """run merge on the real classes for one ordered pair of configurations -> failing-input dict / None
     (records_only: the other operand has seen records without elements - n_records > 0, n_added == 0)"""
     try:
@@ -150,8 +151,32 @@ def try_pair(chk, ca, a, cb, b, how, records_only=False):
             continue
         s.add(b"k1")
         s.add(b"k2")
+    if high and hasattr(x, "cms"):
+        # counters far above the reserved range whose sum overflows the counter type
+        top = int(np.iinfo(x.cms.dtype).max)
+        x.cms.flat[0] = (top * 200) // 255
+        y.cms.flat[0] = (top * 60) // 255
     sx, sy = snapshot(x), snapshot(y)
     compatible = ca == cb and all(a.get(k) == b.get(k) for k in MERGE_PARAMS[ca])
+    expect = None
+    if compatible:
+        # what the family's merge kernel makes of the two operands (on copies)
+        try:
+            mod = chk.module({"HyperLogLog": "hyperloglog", "HeavyHitters": "heavyhitters"}.get(ca, "countmin"))
+            kern = getattr(mod, MERGE_KERNEL[ca].split(".")[1])
+            code = kern.py_func.__code__
+            expect, args = {}, []
+            for n in code.co_varnames[: code.co_argcount]:
+                other = n.startswith("other_")
+                v = getattr(y if other else x, n[6:] if other else n)
+                if isinstance(v, np.ndarray):
+                    v = np.array(v).copy()
+                    if not other:
+                        expect[n] = v
+                args.append(v)
+            kern(*args)
+        except Exception:
+            expect = None
     try:
         x.merge(y)
         raised = None
@@ -164,6 +189,11 @@ def try_pair(chk, ca, a, cb, b, how, records_only=False):
         bad = "incompatible sketches: %s" % ("merge accepted" if raised is None else "raised %s instead of TypeError" % raised)
     if not compatible and (not same(sx, snapshot(x)) or not same(sy, snapshot(y))):
         bad = (bad or "") + " operands modified"
+    if compatible and raised is None and expect:
+        after = snapshot(x)
+        diff = [n for n, v in expect.items() if n in after and not np.array_equal(after[n], v)]
+        if diff:
+            bad = "after merge() %s differ(s) from what the merge kernel %s makes of the two operands" % (diff, MERGE_KERNEL[ca])
     if compatible and raised is None and "n_added_records" in sx:
         want = [(int(sx["n_added_records"][i]) + int(sy["n_added_records"][i])) % 2**64 for i in (0, 1)]
         got = [int(v) for v in snapshot(x)["n_added_records"][:2]]
@@ -231,7 +261,75 @@ def replay_search(chk, A=None, B=None):
                 r = try_pair(chk, ca, a, cb, b, "bounded grid on the real classes (other operand: records without elements)", records_only=True)
                 if r:
                     return r
+                r = try_pair(chk, ca, a, cb, b, "bounded grid on the real classes (counters whose sum overflows the counter type)", high=True)
+                if r:
+                    return r
     return None
+
+
+def factory_rows(chk, ex):
+    """the CountMin() factory builds, for every counter type, the sketch its class constructor builds
+    from the same arguments (num_reserved given or left out) - so that the parameters merge() compares
+    are the ones the caller asked for"""
+    fac = ex.func("countmin", "CountMin")
+    for ctype, cls in (("linear", "CountMinLinear"), ("log16", "CountMinLog16"), ("log8", "CountMinLog8")):
+        for given in ((True, False) if cls != "CountMinLinear" else (False,)):
+            tagn = "CountMin(%r%s)" % (ctype, ", num_reserved given" if given else "")
+            w, d, mc, nr = (Sym(z3.Int(n + "_f"), "int") for n in ("width", "depth", "max_count", "num_reserved"))
+            st = X.State()
+            kwargs = {"cms_type": Const(ctype), "width": w, "depth": d}
+            direct = {"width": w, "depth": d}
+            if cls != "CountMinLinear":
+                kwargs["max_count"] = direct["max_count"] = mc
+                if given:
+                    kwargs["num_reserved"] = direct["num_reserved"] = nr
+            fouts = [o for o in ex.call_function(fac, [], dict(kwargs), st.fork()) if o.kind == "return"]
+            direct["shared_memory"] = Const(False)
+            douts = [(k, v, s_) for k, v, s_ in ex.instantiate(ex.cls("countmin", cls), [], dict(direct), st.fork()) if k == "val"]
+            ok = bool(fouts) and bool(douts)
+            why = []
+            for fo in fouts:
+                if not (isinstance(fo.value, Ref) and fo.state.objs[fo.value.oid]["cls"].name == cls):
+                    ok = False
+                    why.append("class")
+                    continue
+                ff = fo.state.objs[fo.value.oid]["fields"]
+                # some direct-constructor outcome has the same path condition family: compare fields
+                match = False
+                for k, dv, ds in douts:
+                    df = ds.objs[dv.oid]["fields"]
+                    same = True
+                    for pn in MERGE_PARAMS[cls] + ["uint_maxval"]:
+                        x, y = ff.get(pn), df.get(pn)
+                        if x is None or y is None:
+                            same = False
+                            break
+                        s2 = z3.Solver()
+                        s2.set("rlimit", 5_000_000)
+                        for f_ in fo.state.pc:
+                            s2.add(f_)
+                        s2.add(_glue.ex_num(x) != _glue.ex_num(y))
+                        if s2.check() != z3.unsat:
+                            same = False
+                            why.append(pn)
+                            break
+                    match = match or same
+                ok = ok and match
+            chk.rows.append({"name": tagn + ":builds-what-the-class-constructor-builds", "kind": "G", "backend": "pyexec+z3", "result": "proved" if ok else "refuted", "instances": 1, "seconds": 0, "units": 0})
+            if not ok:
+                def fnd(ctype=ctype, cls=cls, given=given):
+                    cm = chk.module("countmin")
+                    for nrv in (0, 1, 7):
+                        try:
+                            a_ = cm.CountMin(ctype, 5, 2, 2**32 - 1, nrv) if given else cm.CountMin(ctype, 5, 2)
+                            b_ = getattr(cm, cls)(5, 2, 2**32 - 1, nrv) if given else getattr(cm, cls)(5, 2)
+                        except Exception:
+                            continue
+                        for pn in MERGE_PARAMS[cls]:
+                            if int(getattr(a_, pn)) != int(getattr(b_, pn)):
+                                return {"key": "CountMin(%r, 5, 2, 2**32-1, %d).%s" % (ctype, nrv, pn), "observed": int(getattr(a_, pn)), "expected": int(getattr(b_, pn)), "how": "factory vs class constructor on the real code"}
+                    return None
+                chk.violation(tagn + ":builds-what-the-class-constructor-builds", {"verdict": "refuted", "detail": "differs in %s" % sorted(set(why))}, fnd())
 
 
 def merge_glue(chk, classes):
@@ -256,6 +354,10 @@ def run(chk):
                 check_pair(chk, ex, A, B, phi)
             except X.Unsupported as e:
                 chk.undecided.append(("%s.merge(%s)" % (A, B), "unsupported construct in glue: %s" % e))
+    try:
+        factory_rows(chk, ex)
+    except X.Unsupported as e:
+        chk.undecided.append(("CountMin factory", "unsupported construct in glue: %s" % e))
     ex2 = glue.make_exec(chk, {("call", "HeavyHitters.generate_candidate_set"): glue._stub_gcs})
     try:
         _glue.field_stability(chk, ex2)
